@@ -78,7 +78,13 @@ func c01() int {
 		}
 	})
 	rep.Assume = []string{"reference semantics of DESIGN.md Appendix A decides 'uncovered' (one direction only)", "programs outside the bounded grammar are not covered"}
-	return rep.Finish(st.coverage(sp, nsRule))
+	cov := st.coverage(sp, nsRule)
+	// the same question at the Commander's level: sequences of scripts through one engine (scriptseq.go), and programs at the
+	// 16-bit resource-address boundary (reslimit.go)
+	seqN, seqSteps := scriptSequences(rep, "")
+	cov["script_sequences"], cov["script_sequence_steps"] = seqN, seqSteps
+	cov["resource_limit_cases"] = resourceLimit(rep, "")
+	return rep.Finish(cov)
 }
 
 // shapeKey: fingerprint of the failing input class: the kinds of source/destination constructs involved (not the concrete values).
